@@ -195,3 +195,154 @@ Lemma w2_history :
   run_calls (env_of w2_g [] sE true) [w2_raw; w2_value_raw; w2_raw] =
   [Ok w2_clean; Ok (mkTe sWORD true (CStr [97]%Z)); Ok w2_clean].
 Proof. vm_compute. reflexivity. Qed.
+
+(* ---- read-only entry points between the calls --------------------------- *)
+
+Lemma hop_state_constant : forall E o, fst (hop_step E o) = E.
+Proof. intros E [r|k]; reflexivity. Qed.
+
+Lemma run_ops_calls : forall E ops, opt_cat (run_ops E ops) = run_calls E (calls_of ops).
+Proof.
+  intros E ops. induction ops as [|[r|k] rest IH]; [reflexivity| |].
+  - cbn [run_ops hop_step call_step fst snd calls_of run_calls opt_cat]. now rewrite IH.
+  - cbn [run_ops hop_step fst snd calls_of opt_cat]. exact IH.
+Qed.
+
+Lemma run_ops_nth : forall E ops pre r post,
+  calls_of ops = pre ++ r :: post ->
+  nth_error (opt_cat (run_ops E ops)) (length pre) = Some (cleanup E r).
+Proof. intros E ops pre r post H. rewrite run_ops_calls, H. apply run_calls_nth. Qed.
+
+Lemma w2_history_looks :
+  run_ops (env_of w2_g [] sE true) [HLook 0; HCall w2_raw; HLook 3; HCall w2_value_raw; HLook 8; HLook 0; HCall w2_raw] =
+  [None; Some (Ok w2_clean); None; Some (Ok (mkTe sWORD true (CStr [97]%Z))); None; None; Some (Ok w2_clean)].
+Proof. vm_compute. reflexivity. Qed.
+
+(* ------------------------------------------------------------------ *)
+(* items that are DIRECTLY template symbols                             *)
+
+(* w9: "[a, b; ; c]", LIST: ListProds('[','ROW',';',']'), ROW: ListProds(None,'WORD',',',None) *)
+Definition o_list9 : lopts := lopts_of (list_ctor (Some sLB) sROW (Some sSEMI) (Some sRB) None None).
+Definition o_row9 : lopts := lopts_of (list_ctor None sWORD (Some sCOMMA) None None None).
+Definition E9 : env := env_of w9_g [] sE true.
+Definition w9_list : rt := match w9_raw with RNode _ [l] => l | _ => RNull [] end.
+Definition d9 : D := DList [DList [DAtom [97]%Z; DAtom [98]%Z]; DList []; DList [DAtom [99]%Z]].
+
+Lemma o_list9_ok : lopts_ok sLIST o_list9.
+Proof.
+  constructor.
+  - reflexivity.
+  - intros _. split; reflexivity.
+  - intros _. reflexivity.
+  - notin.
+  - discriminate.
+  - vm_compute. discriminate.
+  - notin.
+  - notin.
+Qed.
+
+Lemma o_row9_ok : lopts_ok sROW o_row9.
+Proof.
+  constructor.
+  - reflexivity.
+  - vm_compute. discriminate.
+  - vm_compute. discriminate.
+  - notin.
+  - discriminate.
+  - vm_compute. discriminate.
+  - notin.
+  - notin.
+Qed.
+
+Ltac den_row9_tac ds :=
+  eapply (den_list E9 sROW o_row9 _ ds);
+  [ vm_compute; reflexivity | exact o_row9_ok | reflexivity | vm_compute; reflexivity | reflexivity
+  | | left; reflexivity | right; simpl; discriminate ].
+
+Ltac dens_compute :=
+  match goal with |- dens _ ?l _ => let l' := eval vm_compute in l in change l with l' end.
+
+Lemma w9_den : den E9 w9_list d9.
+Proof.
+  unfold d9.
+  eapply (den_list E9 sLIST o_list9 _ [DList [DAtom [97]%Z; DAtom [98]%Z]; DList []; DList [DAtom [99]%Z]]);
+    [ vm_compute; reflexivity | exact o_list9_ok | reflexivity | vm_compute; reflexivity | reflexivity
+    | | right; simpl; discriminate | left; reflexivity ].
+  dens_compute.
+  constructor.
+  { den_row9_tac [DAtom [97]%Z; DAtom [98]%Z]. dens_compute.
+    constructor; [apply den_tok; vm_compute; reflexivity|].
+    constructor; [apply den_tok; vm_compute; reflexivity|constructor]. }
+  constructor.
+  { (* the empty row: a leaf with value None that is not a token *)
+    den_row9_tac (@nil D). dens_compute. constructor. }
+  constructor; [|constructor].
+  den_row9_tac [DAtom [99]%Z]. dens_compute.
+  constructor; [apply den_tok; vm_compute; reflexivity|constructor].
+Qed.
+
+(* w10: "[s {k: [p]}; ; g]", LIST: ListProds('[','SEQ',';',']'), SEQ: ProdSequence('WORD','MAP'),
+   MAP: MapProds('{','WORD',':','VALUE',',','}'), VALUE -> WORD | LIST *)
+Definition o_list10 : lopts := lopts_of (list_ctor (Some sLB) sSEQ (Some sSEMI) (Some sRB) None None).
+Definition E10 : env := env_of w10_g [] sE true.
+Definition w10_list : rt := match w10_raw with RNode _ [l] => l | _ => RNull [] end.
+Definition d10 : D :=
+  DList [DSeq [(sWORD, DAtom [115]%Z); (sMAP, DMap [([107]%Z, DList [DSeq [(sWORD, DAtom [112]%Z)]])])];
+         DSeq [];
+         DSeq [(sWORD, DAtom [103]%Z)]].
+
+Lemma o_list10_ok : lopts_ok sLIST o_list10.
+Proof.
+  constructor.
+  - reflexivity.
+  - intros _. split; reflexivity.
+  - intros _. reflexivity.
+  - notin.
+  - discriminate.
+  - vm_compute. discriminate.
+  - notin.
+  - notin.
+Qed.
+
+Lemma choice_value10 : choice_ok E10 sVALUE.
+Proof. repeat split; vm_compute; reflexivity. Qed.
+
+Ltac den_list10_tac ds :=
+  eapply (den_list E10 sLIST o_list10 _ ds);
+  [ vm_compute; reflexivity | exact o_list10_ok | reflexivity | vm_compute; reflexivity | reflexivity
+  | | right; simpl; discriminate | left; reflexivity ].
+
+Ltac den_tok10 := apply den_tok; vm_compute; reflexivity.
+
+Lemma w10_den : den E10 w10_list d10.
+Proof.
+  unfold d10.
+  den_list10_tac [DSeq [(sWORD, DAtom [115]%Z); (sMAP, DMap [([107]%Z, DList [DSeq [(sWORD, DAtom [112]%Z)]])])];
+                  DSeq []; DSeq [(sWORD, DAtom [103]%Z)]].
+  dens_compute.
+  constructor.
+  { (* the row "s {k: [p]}": a sequence leaf directly as the item *)
+    apply den_seq; [vm_compute; reflexivity | left; reflexivity |].
+    apply (densb_cons E10 (RTok sWORD [115]%Z)); [vm_compute; reflexivity | den_tok10 |].
+    match goal with |- densb _ (?l :: _) _ => apply (densb_cons E10 l) end;
+      [vm_compute; eexists; reflexivity | | constructor].
+    eapply (den_map E10 sMAP o_map _ [(RTok sWORD [107]%Z, _)] [([107]%Z, DList [DSeq [(sWORD, DAtom [112]%Z)]])]);
+      [ vm_compute; reflexivity | exact o_map_ok | reflexivity | vm_compute; reflexivity | reflexivity
+      | vm_compute; reflexivity | ].
+    constructor; [den_tok10 | | constructor].
+    apply (den_choice E10 sVALUE); [exact choice_value10 | vm_compute; eexists; reflexivity |].
+    den_list10_tac [DSeq [(sWORD, DAtom [112]%Z)]]. dens_compute.
+    constructor; [|constructor].
+    apply den_seq; [vm_compute; reflexivity | left; reflexivity |].
+    apply (densb_cons E10 (RTok sWORD [112]%Z)); [vm_compute; reflexivity | den_tok10 | constructor]. }
+  constructor.
+  { (* the empty row *)
+    apply den_seq; [vm_compute; reflexivity | left; reflexivity | constructor]. }
+  constructor; [|constructor].
+  apply den_seq; [vm_compute; reflexivity | left; reflexivity |].
+  apply (densb_cons E10 (RTok sWORD [103]%Z)); [vm_compute; reflexivity | den_tok10 | constructor].
+Qed.
+
+Lemma w9_w10_clean :
+  cleanup E9 w9_raw = Ok (mkTe sE true (enc d9)) /\ cleanup E10 w10_raw = Ok (mkTe sE true (enc d10)).
+Proof. split; vm_compute; reflexivity. Qed.
